@@ -548,7 +548,8 @@ Var& Var::extend(const Var& v)
 	
 	if (_type == OBJ)
 	{
-		foreach2 (String& k, Var & x, *v._o)
+		Dic<Var> src = v.object(); // hold the source: v may be a property of this var and move or die when keys are added
+		foreach2 (String& k, Var & x, src)
 		{
 			if (x.ok())
 				(*_o)[k] = x;
